@@ -59,6 +59,13 @@ RefClauses(r) ==
             <<"reused-object-iterates=reference", wf => (AllLe(r.errA, (-RefBoundNeg) + r.cond) /\ AllLe(r.errB, (-RefBoundNeg) + r.cond))>>,
             <<"maxiter-honoured", wf => \A i \in 1..Len(r.it) : r.it[i] <= i>> >>
 
+\* BiCGStab(L) with reliable updates (delta > 0) against the same solver with delta = 0
+DeltaClauses(r) ==
+    LET wf == \A f \in {"method", "side", "vt", "cond", "err", "want", "nexc", "nnan", "delta"} : Has(r, f)
+    IN  <<  <<"wellformed", wf>>,
+            <<"reliable-update-an-iterate-for-every-k", wf => (r.nexc = 0 /\ r.nnan = 0 /\ Len(r.err) = r.want)>>,
+            <<"reliable-update-iterates=plain-iterates", wf => AllLe(r.err, (-RefBoundNeg) + r.cond)>> >>
+
 CgClauses(r) ==
     LET wf == \A f \in {"gap", "orth", "cond", "dim"} : Has(r, f)
     IN  <<  <<"wellformed", wf>>,
@@ -87,6 +94,7 @@ Failed(r) == IF Has(r, "e") THEN (IF r.e = "End" THEN <<>> ELSE <<"recorder:" \o
              ELSE IF ~Has(r, "k") THEN <<"unknown-record">>
              ELSE CASE r.k = "tiny"   -> FailedOf(TinyClauses(r))
                     [] r.k = "ref"    -> FailedOf(RefClauses(r))
+                    [] r.k = "delta"  -> FailedOf(DeltaClauses(r))
                     [] r.k = "cgopt"  -> FailedOf(CgClauses(r))
                     [] r.k = "minres" -> FailedOf(MinresClauses(r))
                     [] r.k = "term"   -> FailedOf(TermClauses(r))
